@@ -46,6 +46,9 @@ type Case struct {
 	// raw-argument mode: With(raw...).Log(m) vs Log(m, raw...) for argument lists as a caller
 	// may really write them (strings in key position, stray values, Attrs); see rawArg
 	Raw []string `json:"raw,omitempty"`
+	// Color (raw-argument mode): the handlers are built with the colour option on. The comparison is
+	// byte for byte, so it needs no parser for coloured lines.
+	Color bool `json:"color,omitempty"`
 	// concurrent mode
 	Conc *ConcCase `json:"conc,omitempty"`
 }
@@ -423,16 +426,22 @@ func runRaw(cs Case, st *stats) (key, expected, observed string) {
 		tail = []any{slog.Int("z", 9)}
 	}
 	st.equiv++
-	for _, under := range []string{"", "wg"} {
+	for _, under := range []string{"", "wg", "pre"} {
 		var o1, o2 capture
-		l1 := logger.New(logrun.NewHandler(cs.Kind, &o1, 0, cs.AddSource))
-		l2 := logger.New(logrun.NewHandler(cs.Kind, &o2, 0, cs.AddSource))
-		if under != "" {
+		l1 := logger.New(logrun.NewHandlerColor(cs.Kind, &o1, 0, cs.AddSource, cs.Color))
+		l2 := logger.New(logrun.NewHandlerColor(cs.Kind, &o2, 0, cs.AddSource, cs.Color))
+		site := append([]any(nil), args...)
+		switch under {
+		case "wg":
 			// a non-empty tail keeps the group present on both sides
 			l1, l2 = l1.WithGroup(under), l2.WithGroup(under)
+		case "pre":
+			// With on a logger that is itself derived with With: against the call site of the root
+			l1 = l1.With("pre", 1)
+			site = append([]any{"pre", 1}, site...)
 		}
 		logrun.Emit(l1.With(args...), 1, "m", tail)
-		logrun.Emit(l2, 1, "m", append(append([]any(nil), args...), tail...))
+		logrun.Emit(l2, 1, "m", append(site, tail...))
 		a, err1 := logrun.StripTime(cs.Kind, o1.buf.Bytes())
 		b, err2 := logrun.StripTime(cs.Kind, o2.buf.Bytes())
 		if err1 != nil || err2 != nil || string(a) != string(b) {
@@ -461,7 +470,7 @@ type mon struct{}
 func (mon) Name() string { return "logderive" }
 
 func (mon) Level(string) (string, string) {
-	return "exploration", "derivation trees on one shared handler, every logged line compared with the alone replay of that node's own chain (all three handlers). (a) sibling sweep: a non-root parent whose pre-rendered attribute bytes take every length 0..200 (so that every spare capacity the append growth policy yields occurs), parent chain depth 1..3, k ∈ {2,3,4} children with distinct same-length attributes, under a fixed set of derive/log orders, plus – for a set of parent lengths with large spare capacity – every order of ≤6 ops over {derive child i, log parent, log child i}; (b) seeded random trees (depth ≤5, fan-out ≤4, ≤40 ops, random attribute forests incl. groups and LogValuers); (c) With ≡ call-site: With(A).WithGroup(g).With(B).Log(C) decodes like Log(A, Group(g,B,C)), and With(A).With(B).Log(C) like Log(A,B,C), over shape-enumerated and random forests; (d) concurrent: G goroutines derive from one shared non-root parent and log, plain at GOMAXPROCS 2/4/16 and under -race. distinct_nontrivial = distinct histories with ≥2 children of one non-root parent (by op-sequence signature), plus distinct equivalence shapes and concurrent runs"
+	return "exploration", "derivation trees on one shared handler, every logged line compared with the alone replay of that node's own chain (all three handlers). (a) sibling sweep: a non-root parent whose pre-rendered attribute bytes take every length 0..200 (so that every spare capacity the append growth policy yields occurs), parent chain depth 1..3, k ∈ {2,3,4} children with distinct same-length attributes, under a fixed set of derive/log orders, plus – for a set of parent lengths with large spare capacity – every order of ≤6 ops over {derive child i, log parent, log child i}; (b) seeded random trees (depth ≤5, fan-out ≤4, ≤40 ops, random attribute forests incl. groups and LogValuers); (c) With ≡ call-site: With(A).WithGroup(g).With(B).Log(C) decodes like Log(A, Group(g,B,C)), and With(A).With(B).Log(C) like Log(A,B,C), over shape-enumerated and random forests; raw argument lists byte for byte at the root, under a WithGroup and on a logger already derived with With (against the root's call site), lists of up to 3 also with the colour option on (AnsiString values), and those again in an environment that asks for no colour; (d) concurrent: G goroutines derive from one shared non-root parent and log, plain at GOMAXPROCS 2/4/16 and under -race. distinct_nontrivial = distinct histories with ≥2 children of one non-root parent (by op-sequence signature), plus distinct equivalence shapes and concurrent runs"
 }
 
 type shardArgs struct {
@@ -469,6 +478,8 @@ type shardArgs struct {
 	Part  int    `json:"part"`
 	Parts int    `json:"parts"`
 	Count int    `json:"count,omitempty"`
+	// ColorOnly: an equiv shard that runs only the coloured raw-argument comparison
+	ColorOnly bool `json:"color_only,omitempty"`
 }
 
 func (mon) Plan(prop, tier string, seed int64) []drv.Shard {
@@ -487,6 +498,12 @@ func (mon) Plan(prop, tier string, seed int64) []drv.Shard {
 		out = append(out, drv.Shard{Name: fmt.Sprintf("rand-%d", p), Args: a})
 		a, _ = json.Marshal(shardArgs{Kind: "equiv", Part: p, Parts: parts, Count: nequiv})
 		out = append(out, drv.Shard{Name: fmt.Sprintf("equiv-%d", p), Args: a})
+	}
+	for p := 0; p < 2; p++ {
+		// the coloured raw-argument comparison once more in an environment that asks for no colour (the
+		// library does not consult it today; With and the call site must agree whatever it does with it)
+		a, _ := json.Marshal(shardArgs{Kind: "equiv", Part: p, Parts: 2, Count: 3, ColorOnly: true})
+		out = append(out, drv.Shard{Name: fmt.Sprintf("rawcolor-nocolorenv-%d", p), Args: a, Env: []string{"NO_COLOR=1", "TERM=dumb", "CLICOLOR=0"}})
 	}
 	for i, gmp := range []string{"2", "4", "16"} {
 		a, _ := json.Marshal(shardArgs{Kind: "conc", Part: i, Count: nconc})
@@ -692,6 +709,9 @@ func (mn mon) Run(sh drv.Shard, c *drv.Ctx) {
 		// shape-enumerated forests distributed over A, B, C
 		idx := 0
 		attrgen.EnumRecords(a.Count, 2, func(r attrgen.Rec) bool {
+			if a.ColorOnly {
+				return false
+			}
 			if len(r.Chain) != 2 || r.Chain[0].IsGrp || r.Chain[1].IsGrp {
 				return true
 			}
@@ -720,7 +740,12 @@ func (mn mon) Run(sh drv.Shard, c *drv.Ctx) {
 					n++
 					if n%a.Parts == a.Part {
 						for _, kind := range logrun.Kinds {
-							if !exec(Case{Kind: kind, AddSource: n%5 == 0, Raw: append([]string(nil), cur...)}, "raw"+kind+strings.Join(cur, ",")) {
+							if !a.ColorOnly {
+								if !exec(Case{Kind: kind, AddSource: n%5 == 0, Raw: append([]string(nil), cur...)}, "raw"+kind+strings.Join(cur, ",")) {
+									return false
+								}
+							}
+							if d <= 3 && !exec(Case{Kind: kind, AddSource: n%5 == 0, Color: true, Raw: append([]string(nil), cur...)}, "rawcolor"+kind+strings.Join(cur, ",")) {
 								return false
 							}
 						}
